@@ -296,8 +296,15 @@ func init() {
 				opts = append(opts, receipt.WithFork(forks...))
 			}
 			hasJoin := r.Intn(3) == 0
+			var joinInv invocation.Invocation
 			if hasJoin {
-				opts = append(opts, receipt.WithJoin(fx.FromLink(cidlink.Link{Cid: randCid(r, cst)})))
+				if r.Intn(2) == 0 {
+					// the join as an EMBEDDED invocation (often the only embedded view of the receipt)
+					joinInv, _ = invocation.Invoke(user.Signer, sg.DID, ucan.NewCapability[ucan.CaveatBuilder]("store/list", user.DID.String(), Cav{Tag: strp(fmt.Sprint("join", i))}), delegation.WithExpiration(far))
+					opts = append(opts, receipt.WithJoin(fx.FromInvocation(joinInv)))
+				} else {
+					opts = append(opts, receipt.WithJoin(fx.FromLink(cidlink.Link{Cid: randCid(r, cst)})))
+				}
 			}
 			shape += fmt.Sprintf(" forks=%d join=%v", nfork, hasJoin)
 			// metadata (bindnode infers the node from pointers to Go values)
@@ -443,6 +450,10 @@ func init() {
 				}
 				if hasJoin != (fxs.Join() != (fx.Effect{})) {
 					bad = append(bad, "join")
+				} else if joinInv != nil {
+					if got, okk := fxs.Join().Invocation(); !okk || got.Link().String() != joinInv.Link().String() {
+						bad = append(bad, "join-embedded-invocation-lost")
+					}
 				}
 				if len(rd.Meta()) != nmeta {
 					bad = append(bad, "meta")
